@@ -10,11 +10,16 @@ import (
 )
 
 // Pass rest of the file to jsc scanner to find out where jschema ends
-func stateJSchema(s *Scanner, _ byte) *jerr.JApiError {
+func stateJSchema(s *Scanner, c byte) *jerr.JApiError {
 	s.found(SchemaBegin)
 	schemaLength, je := s.readSchemaWithJsc()
 	if je != nil {
 		return je
+	}
+	if schemaLength == 0 && c != EOF {
+		// The schema library found no value here (i.e. only a comment), so the
+		// current character cannot be the beginning of a schema.
+		return s.japiErrorUnexpectedChar("at the beginning of the schema", "")
 	}
 	if schemaLength > 0 {
 		s.curIndex += bytes.Index(schemaLength - 1)
